@@ -56,12 +56,15 @@ int main(int argc, char **argv) {
             else if (!strcmp(tok[0], "num")) ok = op_num(nt - 1, tok + 1);
             else if (!strcmp(tok[0], "fn")) ok = op_fn(nt - 1, tok + 1);
             else if (!strcmp(tok[0], "urlenc")) ok = op_urlenc(nt - 1, tok + 1);
+            else if (!strcmp(tok[0], "conn")) ok = op_conn(0, nt - 1, tok + 1);
+            else if (!strncmp(tok[0], "conn@", 5)) ok = op_conn(atoi(tok[0] + 5), nt - 1, tok + 1);
         }
         if (!ok) printf("bad-op");
         fputc('\n', stdout);
     }
     free(line);
     prim_cleanup();
+    conn_cleanup();
     fflush(stdout);
     return 0;
 }
